@@ -6,6 +6,7 @@ Decided clauses (DESIGN.md section 6 C04):
  3. RDLENGTH equals the RDATA written; names are written as their label encoding or a 2-byte pointer from the table
 """
 from units.base import *
+from units import wire_decode as WD
 
 TRUSTED = TRUSTED_COMMON + [
     "bytes::BytesMut modelled as Seq<u8>; put_u8/put_slice shims (R13); DerefMut index assignment (prelude/bytesmut.rs)",
@@ -16,14 +17,16 @@ TRUSTED = TRUSTED_COMMON + [
 EXT = "bytes_extend(*old(buffer), *final(buffer)),"
 
 SPECS = {
-    "WritableBuffer::default": {"props": ["C04"], "contract": "    ensures r.bytes() == Seq::<u8>::empty(), r.ptrs() == Map::<DomainName, u16>::empty(), r.table_ok(),"},
+    "WritableBuffer::default": {"props": ["C04"], "contract": "    ensures r.bytes() == Seq::<u8>::empty(), r.ptrs() == Map::<DomainName, u16>::empty(), r.table_ok(), r.table_good(),"},
     "WritableBuffer::index": {"props": ["C04"], "contract": "    ensures r == self.bytes().len(),"},
-    "WritableBuffer::write_u8": {"props": ["C04"], "rewrites": ["R13a"], "contract": """    ensures final(self).bytes() == old(self).bytes().push(octet), final(self).name_pointers == old(self).name_pointers,"""},
+    "WritableBuffer::write_u8": {"props": ["C04"], "rewrites": ["R13a"], "contract": """    ensures final(self).bytes() == old(self).bytes().push(octet), final(self).name_pointers == old(self).name_pointers, old(self).table_good() ==> final(self).table_good(),""",
+        "anchors": [{"after": "self.octets.put_u8(octet);", "proof": "proof { if old(self).table_good() { assert(is_prefix(old(self).bytes(), self.bytes())); lemma_codec_table_prefix(*old(self), *self); } }"}]},
     "WritableBuffer::write_u16": {"props": ["C04"], "rewrites": ["R2c"], "contract": """    ensures final(self).bytes() == old(self).bytes() + seq![(value / 256) as u8, (value % 256) as u8], // [C04:u16_big_endian]
-        final(self).name_pointers == old(self).name_pointers,"""},
+        final(self).name_pointers == old(self).name_pointers, old(self).table_good() ==> final(self).table_good(),"""},
     "WritableBuffer::write_u32": {"props": ["C04"], "rewrites": ["R2e"], "contract": """    ensures final(self).bytes() == old(self).bytes() + seq![(value / 16777216) as u8, ((value / 65536) % 256) as u8, ((value / 256) % 256) as u8, (value % 256) as u8], // [C04:u32_big_endian]
-        final(self).name_pointers == old(self).name_pointers,"""},
-    "WritableBuffer::write_octets": {"props": ["C04"], "rewrites": ["R13b"], "contract": """    ensures final(self).bytes() == old(self).bytes() + octets@, final(self).name_pointers == old(self).name_pointers,"""},
+        final(self).name_pointers == old(self).name_pointers, old(self).table_good() ==> final(self).table_good(),"""},
+    "WritableBuffer::write_octets": {"props": ["C04"], "rewrites": ["R13b"], "contract": """    ensures final(self).bytes() == old(self).bytes() + octets@, final(self).name_pointers == old(self).name_pointers, old(self).table_good() ==> final(self).table_good(),""",
+        "anchors": [{"after": "self.octets.put_slice(octets);", "proof": "proof { if old(self).table_good() { assert(is_prefix(old(self).bytes(), self.bytes())); lemma_codec_table_prefix(*old(self), *self); } }"}]},
     "WritableBuffer::memoise_name": {"props": ["C04"], "rewrites": ["R10", "R2c", "R2a"], "contract": """    requires name.wf(), old(self).table_ok(),
     ensures final(self).octets == old(self).octets,
         forall|n: DomainName| #[trigger] final(self).name_pointers@.contains_key(n) ==>
@@ -37,9 +40,11 @@ SPECS = {
         r is Some ==> r->Some_0 == self.name_pointers@[*name], // [C04:pointer_lookup]""",
         "entry": "broadcast use vstd::std_specs::hash::group_hash_axioms, axiom_dn_key_model;"},
     "usize_to_u16": {"props": ["C04"], "contract": """    ensures r is Ok <==> counter <= 0xffff, r is Ok ==> r->Ok_0 == counter,"""},
-    "DomainName::serialise": {"props": ["C04"], "contract": """    requires self.wf(), old(buffer).table_ok(),
+    "DomainName::serialise": {"props": ["C04"], "contract": """    requires self.wf(), old(buffer).table_good(),
     ensures """ + EXT + """
-        final(buffer).table_ok(),
+        final(buffer).table_good(), // [C04:pointer_table_addresses_names_written_earlier]
+        name_at(final(buffer).bytes(), old(buffer).bytes().len() as int) == Some((vals(self.labels@), final(buffer).bytes().len() as int)), // [C04:written_name_reads_back_as_the_same_name]
+        forall|n: DomainName| #[trigger] final(buffer).name_pointers@.contains_key(n) ==> old(buffer).name_pointers@.contains_key(n) || ptr_off(final(buffer).name_pointers@[n]) >= old(buffer).bytes().len(), // [C04:pointers_address_earlier_offsets]
         compress && old(buffer).name_pointers@.contains_key(*self) ==>
             final(buffer).bytes() == old(buffer).bytes() + seq![(old(buffer).name_pointers@[*self] / 256) as u8, (old(buffer).name_pointers@[*self] % 256) as u8]
             && final(buffer).name_pointers == old(buffer).name_pointers, // [C04:compressed_name_is_table_pointer]
@@ -49,38 +54,96 @@ SPECS = {
         forall|n: DomainName| #[trigger] old(buffer).name_pointers@.contains_key(n) ==> final(buffer).name_pointers@.contains_key(n) && final(buffer).name_pointers@[n] == old(buffer).name_pointers@[n],""",
         "entry": "broadcast use vstd::std_specs::hash::group_hash_axioms, axiom_dn_key_model, lemma_enc_labels_push, lemma_enc_labels_len, lemma_take_full;",
         "loops": {"0": {"kw": "for", "iter_name": "it__", "spec": """            invariant
-                self.wf(), buffer.name_pointers == mid_ptrs__@,
+                self.wf(), buffer.name_pointers == mid_ptrs__@, old(buffer).table_good(),
                 buffer.bytes() == old(buffer).bytes() + enc_labels(self.labels@.take(it__.index@ as int)),""",
             "entry": "broadcast use lemma_enc_labels_push; assert(self.labels@.take(it__.index@ as int + 1) =~= self.labels@.take(it__.index@ as int).push(*label)); assert(label.wf());"}},
         "anchors": [{"after": "buffer.memoise_name(self);", "proof": "let ghost mid_ptrs__ = Ghost(buffer.name_pointers); proof { assert(self.labels@.take(0) =~= Seq::<Label>::empty()); }"},
+                    {"after": "buffer.write_u16(ptr);", "proof": """proof {
+    let b0 = old(buffer).bytes(); let b1 = buffer.bytes(); let pos = b0.len() as int;
+    assert(is_prefix(b0, b1));
+    lemma_codec_table_prefix(*old(buffer), *buffer);
+    assert(enc_at(b0, ptr_off(ptr), *self)) by { lemma_codec_table_entry(*old(buffer), *self); }
+    lemma_enc_at_prefix(b0, b1, ptr_off(ptr), *self);
+    assert(ptr_tagged(ptr)) by { lemma_codec_table_entry(*old(buffer), *self); }
+    lemma_decode_pointer(b1, pos, ptr, *self);
+    lemma_vsum_vals(self.labels@);
+}"""},
+                    {"after": "buffer.write_octets(label.octets());\n        }", "proof": """proof {
+    let b0 = old(buffer).bytes(); let b1 = buffer.bytes(); let pos = b0.len() as int;
+    assert(self.labels@.take(self.labels@.len() as int) =~= self.labels@);
+    lemma_enc_labels_len(self.labels@);
+    assert(b1.subrange(pos, pos + labels_sum(self.labels@)) =~= enc_labels(self.labels@));
+    lemma_decode_plain(b1, pos, pos, self.labels@);
+    lemma_vsum_vals(self.labels@);
+    assert(is_prefix(b0, b1));
+    lemma_codec_table_extend(*old(buffer), *buffer, *self);
+}"""},
                     {"after": "buffer.write_octets(label.octets());", "proof": "assert(buffer.bytes() =~= old(buffer).bytes() + enc_labels(self.labels@.take(it__.index@ as int + 1)));"},
                     ]},
     "Header::serialise": {"props": ["C04"], "contract": """    ensures final(buffer).bytes() == old(buffer).bytes() + seq![(self.id / 256) as u8, (self.id % 256) as u8, header_flags1(*self), header_flags2(*self)], // [C04:header_layout]
-        final(buffer).name_pointers == old(buffer).name_pointers,""",
+        final(buffer).name_pointers == old(buffer).name_pointers, old(buffer).table_good() ==> final(buffer).table_good(),""",
         "entry": "broadcast use lemma_flags_or;"},
-    "Question::serialise": {"props": ["C04"], "contract": """    requires self.name.wf(), old(buffer).table_ok(),
-    ensures """ + EXT + """ final(buffer).table_ok(),
-        final(buffer).bytes().len() == old(buffer).bytes().len() + name_wire_len(*old(buffer), self.name, true) + 4,"""},
-    "ResourceRecord::serialise": {"props": ["C04"], "rewrites": ["R10", "R2c"], "contract": """    requires self.name.wf(), rr_names_wf(self.rtype_with_data), old(buffer).table_ok(),
-    ensures """ + EXT + """ final(buffer).table_ok(),
+    "Question::serialise": {"props": ["C04"], "contract": """    requires self.name.wf(), old(buffer).table_good(),
+    ensures """ + EXT + """ final(buffer).table_good(),
+        final(buffer).bytes().len() == old(buffer).bytes().len() + name_wire_len(*old(buffer), self.name, true) + 4,
+        question_at(final(buffer).bytes(), old(buffer).bytes().len() as int) == Some(final(buffer).bytes().len() as int), // [C04:written_question_reads_back_as_the_same_question]
+        // (type and class in their canonical form: Unknown(x) only for codes without a name of their own)
+        qtype_wf(self.qtype) && qclass_wf(self.qclass) ==> question_is(*self, final(buffer).bytes(), old(buffer).bytes().len() as int), // [C04:written_question_reads_back_as_the_same_question]""",
+        "anchors": [{"after": "self.name.serialise(buffer, true);", "proof": "let ghost w1__ = *buffer;"},
+                    {"after": "self.qclass.serialise(buffer);", "proof": """proof {
+    let p0 = old(buffer).bytes().len() as int;
+    assert(is_prefix(w1__.bytes(), buffer.bytes()));
+    lemma_name_at_prefix(w1__.bytes(), buffer.bytes(), p0);
+    lemma_qtype_bijection(spec_qtype_to(self.qtype), self.qtype);
+    lemma_qclass_bijection(spec_qclass_to(self.qclass), self.qclass);
+    broadcast use lemma_be16_div_mod;
+    let e = w1__.bytes().len() as int;
+    assert(buffer.bytes()[e] == (spec_qtype_to(self.qtype) / 256) as u8 && buffer.bytes()[e + 1] == (spec_qtype_to(self.qtype) % 256) as u8);
+    assert(buffer.bytes()[e + 2] == (spec_qclass_to(self.qclass) / 256) as u8 && buffer.bytes()[e + 3] == (spec_qclass_to(self.qclass) % 256) as u8);
+}"""}]},
+    "ResourceRecord::serialise": {"props": ["C04"], "rewrites": ["R10", "R2c"], "contract": """    requires self.name.wf(), rr_names_wf(self.rtype_with_data), old(buffer).table_good(),
+    ensures """ + EXT + """ final(buffer).table_good(),
         r is Ok ==> ({
             let ri = (old(buffer).bytes().len() + name_wire_len(*old(buffer), self.name, true) + 8) as int;
             ri + 2 <= final(buffer).bytes().len()
             && be16(final(buffer).bytes()[ri], final(buffer).bytes()[ri + 1]) == final(buffer).bytes().len() - ri - 2 }), // [C04:rdlength_equals_rdata_written]
-        r is Err ==> final(buffer).bytes().len() - (old(buffer).bytes().len() + name_wire_len(*old(buffer), self.name, true) + 10) > 0xffff, // [C04:error_only_if_rdata_too_long]""",
-        "entry": "broadcast use lemma_be16_div_mod;"},
+        r is Err ==> final(buffer).bytes().len() - (old(buffer).bytes().len() + name_wire_len(*old(buffer), self.name, true) + 10) > 0xffff, // [C04:error_only_if_rdata_too_long]
+        // the record's owner, TYPE, CLASS, TTL read back as written and RDLENGTH leads to the end of the record (type and class canonical)
+        r is Ok && rtype_wf(spec_rtype_of(self.rtype_with_data)) && rclass_wf(self.rclass) ==>
+            rr_prefix_at(final(buffer).bytes(), old(buffer).bytes().len() as int) is Some
+            && rr_header_is(*self, final(buffer).bytes(), old(buffer).bytes().len() as int)
+            && rr_end(final(buffer).bytes(), old(buffer).bytes().len() as int) == final(buffer).bytes().len(), // [C04:written_record_header_reads_back_and_rdlength_spans_the_rdata]""",
+        "attrs": "#[verifier::rlimit(150)] // 20 match arms",
+        "entry": "broadcast use lemma_be16_div_mod;",
+        "anchors": [{"after": "self.name.serialise(buffer, true);", "proof": "let ghost w1__ = *buffer;"},
+                    {"after": "buffer.write_u32(self.ttl);", "proof": "let ghost w_mid__ = *buffer;"},
+                    {"after": "let rdlength = usize_to_u16(", "at": "before", "proof": """let ghost w_pre__ = *buffer;
+assert(forall|n: DomainName| #[trigger] buffer.name_pointers@.contains_key(n) ==>
+    (w_mid__.name_pointers@.contains_key(n) && buffer.name_pointers@[n] == w_mid__.name_pointers@[n]) || ptr_off(buffer.name_pointers@[n]) >= w_mid__.bytes().len() + 2);"""},
+                    {"after": "buffer.octets[rdlength_index + 1] = lo;", "proof": """proof {
+    lemma_codec_table_patch(w_mid__, w_pre__, *buffer);
+    let p0 = old(buffer).bytes().len() as int; let e = w1__.bytes().len() as int;
+    assert(is_prefix(w1__.bytes(), buffer.bytes()));
+    lemma_name_at_prefix(w1__.bytes(), buffer.bytes(), p0);
+    lemma_rtype_bijection(spec_rtype_to(spec_rtype_of(self.rtype_with_data)), spec_rtype_of(self.rtype_with_data));
+    lemma_rclass_bijection(spec_rclass_to(self.rclass), self.rclass);
+    lemma_be32_div_mod(self.ttl);
+    assert(is_prefix(w_mid__.bytes(), buffer.bytes()));
+    assert(buffer.bytes()[e] == w_mid__.bytes()[e] && buffer.bytes()[e + 1] == w_mid__.bytes()[e + 1] && buffer.bytes()[e + 2] == w_mid__.bytes()[e + 2] && buffer.bytes()[e + 3] == w_mid__.bytes()[e + 3]);
+    assert(buffer.bytes()[e + 4] == w_mid__.bytes()[e + 4] && buffer.bytes()[e + 5] == w_mid__.bytes()[e + 5] && buffer.bytes()[e + 6] == w_mid__.bytes()[e + 6] && buffer.bytes()[e + 7] == w_mid__.bytes()[e + 7]);
+}"""}]},
 }
 for t in ("QueryType", "QueryClass", "RecordType", "RecordClass"):
     f = {"QueryType": "spec_qtype_to", "QueryClass": "spec_qclass_to", "RecordType": "spec_rtype_to", "RecordClass": "spec_rclass_to"}[t]
     SPECS[f"{t}::serialise"] = {"props": ["C04"], "contract": f"""    ensures final(buffer).bytes() == old(buffer).bytes() + seq![({f}(self) / 256) as u8, ({f}(self) % 256) as u8], // [C04:code_written_big_endian]
-        final(buffer).name_pointers == old(buffer).name_pointers,"""}
-SPECS["Message::serialise"] = {"props": ["C04"], "contract": """    requires msg_names_wf(*self), old(buffer).table_ok(), old(buffer).bytes().len() == 0,
-    ensures final(buffer).table_ok(),
+        final(buffer).name_pointers == old(buffer).name_pointers, old(buffer).table_good() ==> final(buffer).table_good(),"""}
+SPECS["Message::serialise"] = {"props": ["C04"], "contract": """    requires msg_names_wf(*self), old(buffer).table_good(), old(buffer).bytes().len() == 0,
+    ensures final(buffer).table_good(),
         r is Ok ==> final(buffer).bytes().len() >= 12, // [C04:at_least_header]
         r is Ok ==> header_written(final(buffer).bytes(), self.header), // [C04:header_layout]
         r is Ok ==> counts_written(final(buffer).bytes(), *self), // [C04:counts_are_section_lengths]
 """,
-    "loops": {str(k): {"kw": "for", "iter_name": "it__", "spec": """            invariant msg_names_wf(*self), buffer.table_ok(), buffer.bytes().len() >= 12, is_prefix(hdr12__@, buffer.bytes()), hdr12__@.len() == 12, header_written(hdr12__@, self.header), counts_written(hdr12__@, *self),"""}
+    "loops": {str(k): {"kw": "for", "iter_name": "it__", "spec": """            invariant msg_names_wf(*self), buffer.table_good(), buffer.bytes().len() >= 12, is_prefix(hdr12__@, buffer.bytes()), hdr12__@.len() == 12, header_written(hdr12__@, self.header), counts_written(hdr12__@, *self),"""}
               for k in range(4)},
     "anchors": [{"after": "buffer.write_u16(arcount);", "proof": "let ghost hdr12__ = Ghost(buffer.bytes()); proof { broadcast use lemma_be16_div_mod; assert(buffer.bytes().len() == 12); }"}]}
 SPECS["Message::to_octets"] = {"props": ["C04"], "contract": """    requires msg_names_wf(*self),
@@ -97,6 +160,8 @@ def build(G):
     G.item(S, "enum", "Error")
     G.item(S, "struct", "WritableBuffer")
     G.file(os.path.join(PRELUDE, "wire_spec.rs"))
+    nd = WD.SPEC_RS[WD.SPEC_RS.index("// ---- C03 stage 2"):WD.SPEC_RS.index("pub open spec fn msg_counts_ok")]
+    G.raw(nd, ("spec", "name spec decoder (shared with wire_decode)"))
     G.file(os.path.join(VERIF, "units", "wire_codec.spec.rs"))
     specs = dict(SPECS)
     specs.update(as_assumed(NAME_SPECS, ["Label::len", "Label::is_empty", "DomainName::is_root"]))
@@ -119,6 +184,10 @@ def build(G):
 
 
 CANARIES = [
+    {"name": "pointer_written_low_byte_first", "file": SER, "old": "                buffer.write_u16(ptr);\n                return;", "new": "                buffer.write_u16(ptr.swap_bytes());\n                return;"},
+    {"name": "name_memoised_after_it_is_written", "file": SER, "old": "        buffer.memoise_name(self);\n        for label in &self.labels {\n            buffer.write_u8(label.len());\n            buffer.write_octets(label.octets());\n        }", "new": "        for label in &self.labels {\n            buffer.write_u8(label.len());\n            buffer.write_octets(label.octets());\n        }\n        buffer.memoise_name(self);"},
+    {"name": "question_class_written_before_type", "file": SER, "old": "        self.qtype.serialise(buffer);\n        self.qclass.serialise(buffer);", "new": "        self.qclass.serialise(buffer);\n        self.qtype.serialise(buffer);"},
+    {"name": "record_ttl_written_as_u16", "file": SER, "old": "        buffer.write_u32(self.ttl);", "new": "        buffer.write_u16(self.ttl as u16);\n        buffer.write_u16(0);"},
     {"name": "ptr_mask_wrong", "file": SER, "old": "hi | 0b1100_0000", "new": "hi | 0b1000_0000"},
     {"name": "rdlength_off_by_two", "file": SER, "old": "usize_to_u16(buffer.index() - rdlength_index - 2)?", "new": "usize_to_u16(buffer.index() - rdlength_index)?"},
     {"name": "opcode_shift", "file": SER, "old": "(u8::from(self.opcode) << HEADER_OFFSET_OPCODE)", "new": "(u8::from(self.opcode) << 2)"},
